@@ -154,6 +154,12 @@ class NatSpec(object):
     def isin(self, a, b):
         return np.isin(np.asarray(a), np.asarray(b))
 
+    def np_apply(self, name, arr, axis=None, **kw):
+        import warnings
+        with warnings.catch_warnings():
+            warnings.simplefilter("ignore")
+            return getattr(np, name)(np.asarray(arr), axis=axis, **kw)
+
     def sort_rank(self, arr):
         return np.argsort(np.argsort(np.asarray(arr), kind="stable"), kind="stable")
 
